@@ -50,7 +50,7 @@ func isOriginAllowed(origin string, allowOrigins []string) (string, bool) {
 				return origin, true
 			}
 
-			if strings.Contains(allowedURL.Host, "*") {
+			if allowedURL.Scheme == originURL.Scheme && strings.Contains(allowedURL.Host, "*") {
 				// every character other than '*' must match literally
 				pattern := regexp.QuoteMeta(allowedURL.Host)
 				pattern = strings.ReplaceAll(pattern, "\\*\\.", "(.*\\.)?")
